@@ -181,6 +181,13 @@ class Codec:
             return self.dict_items(it, "keys")
         if isinstance(it, SortedKeys):
             return self.dict_items(it.d, "keys")
+        if isinstance(it, SIterable) and it.what == "enumerate":
+            inner = self.as_collection(it.payload[0], frame)
+            k, elem, n = self.generic_of(inner)
+            key = ("enum", id(inner))
+            if key not in self.generic:
+                self.generic[key] = SMapped(inner, STuple([SInt(k + it.payload[1].t), elem]))
+            return self.generic[key]
         if isinstance(it, ZVal) and isinstance(it.ty, TSet):
             self.order_events.append(("set-order", "set"))
             raise Unsupported("writer iterates a set (order is not a function of the value)")
